@@ -2,6 +2,7 @@
 package props
 
 import (
+	"strings"
 	"fmt"
 	"mc/explore"
 	"os"
@@ -67,7 +68,7 @@ var seqShard, seqShards int // set by Isolate in a shard: ParallelFor runs seque
 
 // Fork re-executes this binary n times as shard processes of the same property and tier (each
 // single-threaded: package-level state of the code under test is then private to a shard) and
-// merges their partial reports. A child that dies is a harness error, never a verdict.
+// merges their partial reports. A child that dies was killed by the code it was exercising (the harness itself does not die on the unchanged tree): a verdict.
 func (c *Ctx) Fork(n int) {
 	dir, err := os.MkdirTemp(report.BuildDir, "run.")
 	if err != nil {
@@ -107,6 +108,16 @@ func (c *Ctx) Fork(n int) {
 				c.R.Violate("process-ended-by-code-under-test", string(cur), fmt.Sprintf("shard process ended (%v) while running this case; output tail: %s", e, tail), nil)
 				c.R.NotExhaustive("a shard process was ended by the code under test; the rest of that shard was not run")
 				c.R.MergePartial(filepath.Join(dir, fmt.Sprintf("part%d.json.progress", i)))
+				continue
+			}
+			if (strings.Contains(e.Error(), "exit status") || strings.Contains(e.Error(), "signal:")) && !strings.Contains(e.Error(), "signal: killed") && !strings.Contains(e.Error(), "signal: terminated") {
+				// (SIGKILL / SIGTERM come from outside - an operator, the kernel's OOM killer - and stay harness errors)
+				// the shard died while it was exercising the code under check without having announced a case: a fatal
+				// error, a panic in a goroutine the check cannot recover in, or the library ending the process (os.Exit /
+				// log.Fatal). On the unchanged tree no shard dies, so this is a verdict about the tree; which call it was is in
+				// the output tail (a panic's stack names the check's call site).
+				c.R.Violate("process-died-while-checking/"+dieClass(tail), fmt.Sprintf("shard %d/%d ended with %v", i, n, e), tail, nil)
+				c.R.NotExhaustive("a shard process died; the rest of that shard was not run")
 				continue
 			}
 			c.R.HarnessError(fmt.Sprintf("shard %d/%d failed: %v: %s", i, n, e, tail))
@@ -181,4 +192,30 @@ func WorkerMain(args []string) {
 		panic("worker: unknown kind " + args[0])
 	}
 	k(args[1:])
+}
+
+
+// dieClass: a finding-key component from the output of a shard process that died (the kind of death, and the first
+// frame inside the repository if there is one).
+func dieClass(out string) string {
+	kind := "exit"
+	switch {
+	case strings.Contains(out, "fatal error:"):
+		kind = "fatal-error"
+	case strings.Contains(out, "panic:"):
+		kind = "panic"
+	}
+	for _, l := range strings.Split(out, "\n") {
+		l = strings.TrimSpace(l)
+		for _, pre := range []string{"free5gclib/", "tglib", "stgutg"} {
+			if strings.HasPrefix(l, pre) && strings.Contains(l, "(") {
+				f := l[:strings.Index(l, "(")]
+				if len(f) > 60 {
+					f = f[:60]
+				}
+				return kind + "/" + strings.ReplaceAll(f, " ", "")
+			}
+		}
+	}
+	return kind
 }
